@@ -153,16 +153,16 @@ impl Report {
 
         // known findings
         let mut known: Vec<(String, String)> = vec![]; // (signature, what)
-        let kf = root.join("known_findings.jsonl");
+        let kf = root.join("known_findings.txt");
         if let Ok(text) = std::fs::read_to_string(&kf) {
             for line in text.lines() {
                 let line = line.trim();
-                if line.is_empty() || line.starts_with('#') {
+                if line.is_empty() || line.starts_with('#') || line.starts_with("fixed:") {
                     continue;
                 }
                 let v: Value = match serde_json::from_str(line) {
                     Ok(v) => v,
-                    Err(e) => crate::util::machinery_error(&format!("known_findings.jsonl: {e}")),
+                    Err(e) => crate::util::machinery_error(&format!("known_findings.txt: {e}")),
                 };
                 if v["status"] == "known" && v["property"] == self.property.as_str() {
                     known.push((
